@@ -215,6 +215,27 @@ def run_case(ctx, c):
     body = np.array([[float(x) for x in row] for row in rd[1:]])
     if body.shape != data.shape or not np.allclose(body[:, :ncol], exp, rtol=1e-12, atol=0):
         ctx.fail('csv_export_differs', dict(case=brief, csv_shape=list(body.shape), data_shape=list(data.shape)), sig=sig)
+    # export of a caller-chosen column list (a query result in the caller's order): every labelled column holds the series
+    # of that label
+    if ncol >= 4:
+        rest = list(range(1, ncol))
+        pick = [0] + rest[len(rest) // 2:][:6] + rest[:len(rest) // 2][:6]          # deliberately not ascending
+        csv2 = os.path.join(out_dir, 'export-subset.csv')
+        try:
+            td.export_csv(csv2, idx=pick)
+            with open(csv2) as fh:
+                rd2 = list(csv.reader(fh))
+            head2 = rd2[0]
+            body2 = np.array([[float(x) for x in row] for row in rd2[1:]])
+            for pos, col in enumerate(pick):
+                label_ok = head2[pos].strip() == want_names[col].strip() or col == 0
+                if not label_ok or body2.shape[0] != exp.shape[0] or not np.allclose(body2[:, pos], exp[:, col], rtol=1e-12, atol=0):
+                    ctx.fail('csv_export_column_does_not_hold_its_label', dict(case=brief, position=pos, label=head2[pos], expected_label=want_names[col],
+                                                                             requested=pick[:8]), sig=dict(sig, subset_export=True))
+                    break
+            ctx.count('csv_export:subset_in_caller_order')
+        except Exception as e:
+            ctx.fail('csv_export_raised', dict(case=brief, error='%s: %s' % (type(e).__name__, str(e)[:150])), sig=dict(sig, subset_export=True))
     # get_data by variable and sub-index (in-memory part)
     if not c['limit_store'] and 'GENROU' in ss.models and ss.GENROU.n > 1:
         var = ss.GENROU.omega
